@@ -159,9 +159,9 @@ func RunInProcess(dir string, want Want) *Result {
 // ---- CLI ---------------------------------------------------------------------------
 
 var (
-	cliOnce sync.Once
-	cliPath string
-	cliErr  error
+	cliMu    sync.Mutex
+	cliPaths = map[string]string{}
+	cliErrs  = map[string]error{}
 )
 
 func goEnv() []string {
@@ -175,28 +175,32 @@ func goEnv() []string {
 	return append(env, "GOFLAGS=-mod=mod", "GOPROXY=off", "GOTOOLCHAIN=auto")
 }
 
-// BuildCLI builds the real gleece binary from /repo's working tree (once per process).
+// BuildCLI builds the real gleece binary from /repo's working tree (once per process and tag set).
 func BuildCLI(tags string) (string, error) {
-	cliOnce.Do(func() {
-		dir, err := Scratch("cli-")
-		if err != nil {
-			cliErr = err
-			return
-		}
-		cliPath = filepath.Join(dir, "gleece")
-		args := []string{"build", "-o", cliPath}
-		if tags != "" {
-			args = append(args, "-tags", tags)
-		}
-		args = append(args, ".")
-		c := exec.Command("go", args...)
-		c.Dir = RepoRoot
-		c.Env = goEnv()
-		if out, err := c.CombinedOutput(); err != nil {
-			cliErr = fmt.Errorf("building the gleece CLI failed: %v\n%s", err, out)
-		}
-	})
-	return cliPath, cliErr
+	cliMu.Lock()
+	defer cliMu.Unlock()
+	if p, ok := cliPaths[tags]; ok {
+		return p, cliErrs[tags]
+	}
+	dir, err := Scratch("cli-")
+	if err != nil {
+		return "", err
+	}
+	path := filepath.Join(dir, "gleece")
+	args := []string{"build", "-o", path}
+	if tags != "" {
+		args = append(args, "-tags", tags)
+	}
+	args = append(args, ".")
+	c := exec.Command("go", args...)
+	c.Dir = RepoRoot
+	c.Env = goEnv()
+	var berr error
+	if out, err := c.CombinedOutput(); err != nil {
+		berr = fmt.Errorf("building the gleece CLI failed: %v\n%s", err, out)
+	}
+	cliPaths[tags], cliErrs[tags] = path, berr
+	return path, berr
 }
 
 type CLIResult struct {
